@@ -183,4 +183,9 @@ def r1_9(ctx):
     borrow(ctx, r13_2, "R13.2", "R1.9", " [every width this property speaks about comes out of the width-table lookup]")
 
 
-RULES = [r1_1, r1_2, r1_3, r1_4, r1_5, r1_6, r1_7, r1_8, r1_9]
+def r1_10(ctx):
+    from .c07 import r7_15
+    r7_15(ctx, "R1.10", " [C01: the one place where a table's columns are cut down to the available width]")
+
+
+RULES = [r1_1, r1_2, r1_3, r1_4, r1_5, r1_6, r1_7, r1_8, r1_9, r1_10]
